@@ -6,10 +6,15 @@ from __future__ import annotations
 import ast
 
 from ..cfg import CFG
-from ..core import AnalysisError, const_value
+from ..astutil import inside
+from ..core import AnalysisError, const_value, walk_own
+from ..events import container_events, root_name
+from ..paths import path_variants, return_cases, var_leaves
 from ..defuse import DefUse, Terms, show, walk_term
 from ..defuse import key as tkey
-from ..tutil import lin, np_call, strip_conv
+from ..tutil import (EvUnknown, bound_args, ev_term, lin, np_call, seq_parts,
+                     simp,
+                     strip_conv, subst_params)
 
 EXPLANATION = (
     "Static analysis of parsers.fasta._shuffle_proteins and make_decoys. "
@@ -44,228 +49,392 @@ def run(ctx):
     _make(ctx, prog.func(FA + "make_decoys"))
 
 
+def _neg_one(t):
+    return t == ("const", -1) or t == ("un", "-", ("const", 1))
+
+
+def _pair_idiom(cfg, T, store_stmt, lo_atom, hi_atom, loop):
+    """Which consecutive-site idiom produces (site, next site)?  Returns
+    (SITES term, None) or (None, reason).
+
+      A  for i, s in enumerate(S): ... S[i + 1]   guarded by  i + 1 < len(S)
+      B  for s, n in zip(S[:-1], S[1:])
+    """
+    # B
+    if lo_atom[0] == "zipelem" and hi_atom[0] == "zipelem" and \
+            lo_atom[2] == hi_atom[2] and (lo_atom[1], hi_atom[1]) == (0, 1) \
+            and len(lo_atom[2]) == 2:
+        a, b = lo_atom[2]
+        if a[0] == "sub" and b[0] == "sub" and a[1] == b[1] and \
+                a[2][0] == "slice" and b[2][0] == "slice":
+            none = ("const", None)
+            ok = (a[2][1] in (none, ("const", 0)) and _neg_one(a[2][2])
+                  and a[2][3] == none and b[2][1] == ("const", 1)
+                  and b[2][2] == none and b[2][3] == none)
+            if ok:
+                return a[1], None
+        return None, "zip of something else than S[:-1], S[1:]"
+    # A
+    if lo_atom[0] == "elem" and hi_atom[0] == "sub" and \
+            hi_atom[1] == lo_atom[1]:
+        S = lo_atom[1]
+        d = lin(hi_atom[2]) + lin(("idx", S)).scale(-1)
+        if not (d.const == 1 and not d.atoms):
+            return None, "the next site is not sites[index + 1]"
+        # range check: the store runs only when index + 1 < len(S)
+        LEN = ("call", "builtins.len", (S,), ())
+        conds = [(simp(T.of(t)), o)
+                 for t, o in cfg.necessary_conditions(store_stmt)
+                 if inside(t, loop)]
+        bad = []
+        for n_idx in (8, 9):
+
+            def atoms(t, n_idx=n_idx):
+                if t == LEN:
+                    return 10
+                if t == ("idx", S):
+                    return n_idx
+                raise KeyError(t)
+            try:
+                reach = True
+                for t, o in conds:
+                    try:
+                        if bool(ev_term(t, atoms)) != o:
+                            reach = False
+                    except (EvUnknown, KeyError):
+                        pass        # a condition about something else
+                if reach != (n_idx + 1 < 10):
+                    bad.append(n_idx)
+            except Exception as e:      # pragma: no cover
+                return None, str(e)
+        if bad:
+            return None, ("no range check on the next-site index: the last "
+                          "site has no following peptide")
+        return S, None
+    return None, "start / next site are not consecutive sites"
+
+
 def _shuffle(ctx, f):
+    """Sink-driven: the slice store that rewrites a peptide's interior."""
     prog = ctx.prog
     du = DefUse(prog, f)
     T = Terms(du, phi_vars=True)
     cfg = CFG(f.node)
     p_prots, p_prefix, p_enz, p_rev = f.params[:4]
-    ol = [n for n in f.node.body if isinstance(n, ast.For)]
-    ctx.require(len(ol) == 1 and isinstance(ol[0].target, ast.Tuple),
-                f"{f.qual}: protein loop not found")
+    evs = container_events(f.node, T, cfg)
+    loops = [n for n in walk_own(f.node) if isinstance(n, ast.For)]
+    ol = [n for n in loops if cfg.enclosing(n, (ast.For, ast.While)) is None]
+    ctx.require(len(ol) == 1, f"{f.qual}: protein loop not found")
     ol = ol[0]
-    v_prot, v_seq = (e.id for e in ol.target.elts)
-    ctx.check(ast.unparse(ol.iter) == p_prots, "C18c-every-protein", f,
+    ctx.check(T.of(ol.iter) == ("param", p_prots), "C18c-every-protein", f,
               "every target protein gets a decoy",
               f"loop over {ast.unparse(ol.iter)}", node=ol)
-    asg = {ast.unparse(s.targets[0]): s for s in ol.body
-           if isinstance(s, ast.Assign)}
-    # name
-    nm = [k for k, s in asg.items()
-          if ast.unparse(s.value) == f"{p_prefix} + {v_prot}"]
-    ctx.check(len(nm) == 1, "C18c-decoy-name", f,
-              "decoy name = decoy prefix + target name",
-              f"{ {k: ast.unparse(v.value)[:40] for k, v in asg.items()} }",
-              node=ol)
-    # working copy
-    ws = [k for k, s in asg.items()
-          if ast.unparse(s.value) == f"list({v_seq})"]
-    ctx.require(len(ws) == 1, f"{f.qual}: working copy list(seq) not found")
-    w = ws[0]
-    st = [k for k, s in asg.items() if ast.unparse(s.value) ==
-          f"_cleavage_sites({v_seq}, {p_enz})"]
-    ctx.check(len(st) == 1, "C18b-sites-of-this-protein", f,
-              "cleavage sites are those of this sequence under the given "
-              "enzyme", "sites are not _cleavage_sites(seq, enzyme)",
-              node=ol)
-    if len(st) != 1:
+    EL = ("elem", ("param", p_prots))
+    PROT, SEQ = ("item", EL, 0), ("item", EL, 1)
+    # result rows: [decoy name, joined working copy]
+    rets = [t for _r, t in T.returns()]
+    ctx.require(len(rets) == 1 and rets[0][0] == "var",
+                f"{f.qual}: result list not recognised")
+    RES = rets[0][1]
+    app = [e for e in evs if e.kind == "append" and root_name(e.recv) == RES]
+    ok_a = False
+    W = None
+    if len(app) == 1 and len(app[0].args) == 1 and app[0].args[0][0] in (
+            "list", "tuple") and len(app[0].args[0][1]) == 2:
+        nm, sq = app[0].args[0][1]
+        if sq[0] == "mcall" and sq[1] == ("const", "") and \
+                sq[2] == "join" and len(sq[3]) == 1:
+            W = root_name(sq[3][0])
+        ok_name = nm == ("bin", "+", ("param", p_prefix), PROT)
+        ctx.check(ok_name, "C18c-decoy-name", f,
+                  "decoy name = decoy prefix + target name",
+                  f"name is {show(nm, 80)}", node=app[0].node)
+        ok_a = W is not None and not [
+            c for c in cfg.necessary_conditions(app[0].stmt)
+            if inside(c[0], ol)] and cfg.enclosing(
+                app[0].stmt, (ast.For, ast.While)) is ol
+    ctx.check(ok_a, "C18a-decoy-record", f,
+              "each decoy is (prefixed name, the re-joined working copy), "
+              "one per protein",
+              f"{[show(a, 100) for e in app for a in e.args]}", node=ol)
+    if not ok_a:
         return
-    sites = st[0]
-    il = [n for n in ol.body if isinstance(n, ast.For)]
-    ctx.require(len(il) == 1, f"{f.qual}: peptide loop not found")
-    il = il[0]
-    ok = ast.unparse(il.iter) == f"enumerate({sites})"
-    ctx.check(ok, "C18b-every-peptide", f,
-              "every pair of consecutive sites is visited",
-              f"peptide loop over {ast.unparse(il.iter)}", node=il)
-    i_idx, i_site = (e.id for e in il.target.elts)
-    ia = {ast.unparse(s.targets[0]): s for s in il.body
-          if isinstance(s, ast.Assign)}
-    Tn = Terms(du, phi_vars=True)
-    key = (lambda x: tkey(x, 300))
-    # the slice store
-    stores = [s for s in ast.walk(il) if isinstance(s, ast.Assign)
-              and isinstance(s.targets[0], ast.Subscript)
-              and ast.unparse(s.targets[0].value) == w
-              and isinstance(s.targets[0].slice, ast.Slice)]
-    ctx.require(len(stores) == 1, f"{f.qual}: interior overwrite not found")
+    # the working copy starts as list(seq)
+    winit = [T.of_def(d) for d in du.defs if d.name == W
+             and d.kind == "assign"]
+    ctx.check(winit == [("call", "builtins.list", (SEQ,), ())],
+              "C18a-rearrangement-of-itself", f,
+              "the working copy starts as the protein's own residues",
+              f"working copy initialised as {[show(t, 60) for t in winit]}",
+              node=ol)
+    stores = [e for e in evs if root_name(e.recv) == W]
+    ctx.require(len(stores) == 1 and stores[0].kind == "store"
+                and stores[0].key[0] == "slice",
+                f"{f.qual}: expected exactly one interior overwrite of the "
+                f"working copy, found {[e.kind for e in stores]}")
     so = stores[0]
-    lo_n, hi_n = so.targets[0].slice.lower, so.targets[0].slice.upper
-    lo_t, hi_t = Tn.of(lo_n), Tn.of(hi_n)
-    site_t = Tn.of(ast.Name(id=i_site, ctx=ast.Load()))
-    # start - site == 1
-    l_lo = lin(lo_t, key)
-    site_key = [k for k in l_lo.atoms]
-    ok_lo = len(l_lo.atoms) == 1 and l_lo.const == 1 and list(
-        l_lo.atoms.values())[0] == 1 and l_lo.terms[site_key[0]][0] in (
-            "elem", "item")
-    ctx.check(ok_lo, "C18b-first-residue-fixed", f,
+    il = cfg.enclosing(so.stmt, (ast.For,))
+    ctx.require(il is not None and il is not ol and cfg.enclosing(
+        il, (ast.For, ast.While)) is ol, f"{f.qual}: peptide loop not found")
+    lo_t, hi_t, step_t = so.key[1:]
+    l_lo, l_hi = lin(lo_t), lin(hi_t)
+
+    def single(l):
+        if len(l.atoms) == 1:
+            (k, c), = l.atoms.items()
+            if c == 1:
+                return l.terms[k], l.const
+        return None, None
+
+    lo_atom, lo_c = single(l_lo)
+    hi_atom, hi_c = single(l_hi)
+    SITES = None
+    why_pair = "interior bounds are not site + c"
+    if lo_atom is not None and hi_atom is not None:
+        SITES, why_pair = _pair_idiom(cfg, T, so.stmt, lo_atom, hi_atom, il)
+    ctx.check(SITES is not None, "C18b-every-peptide", f,
+              "every pair of consecutive sites is visited",
+              why_pair or "", node=il)
+    ctx.check(SITES is not None, "C18b-last-site-skipped", f,
+              "the last site has no following peptide and is skipped",
+              why_pair or "", node=il)
+    if SITES is None:
+        return
+    want_sites = ("call", FA + "_cleavage_sites", (SEQ, ("param", p_enz)), ())
+    ctx.check(SITES == want_sites and T.of(il.iter)[0] == "call"
+              and any(x == SITES for x in walk_term(T.of(il.iter))),
+              "C18b-sites-of-this-protein", f,
+              "cleavage sites are those of this sequence under the given "
+              "enzyme", f"sites are {show(SITES, 100)}", node=il)
+    ctx.check(lo_c == 1 and step_t == ("const", None),
+              "C18b-first-residue-fixed", f,
               "interior starts one residue after the cleavage site (start - "
               "site == 1): the peptide's first residue stays in place",
-              f"start = {l_lo!r}", node=so)
-    # next_site - end == 1 with next_site = sites[idx + 1]
-    l_hi = lin(hi_t, key)
-    ok_hi = False
-    why = f"end = {l_hi!r}"
-    if len(l_hi.atoms) == 1 and l_hi.const == -1:
-        (k, c), = l_hi.atoms.items()
-        at = l_hi.terms[k]
-        if c == 1 and at[0] == "sub":
-            li = lin(at[2], key)
-            ok_hi = li.const == 1 and len(li.atoms) == 1 and list(
-                li.atoms.values())[0] == 1 and "idx(" in list(li.atoms)[0]
-            why = f"end = {show(at, 80)} - 1"
-    ctx.check(ok_hi, "C18b-last-residue-fixed", f,
+              f"start = {l_lo!r}", node=so.node)
+    ctx.check(hi_c == -1, "C18b-last-residue-fixed", f,
               "interior ends one residue before the next cleavage site "
-              "(next_site - end == 1, next_site = sites[idx + 1]): the "
-              "peptide's last residue stays in place", why, node=so)
-    # range check on idx + 1
-    rc = [s for s in il.body if isinstance(s, ast.If)
-          and "len(" in ast.unparse(s.test)
-          and isinstance(s.body[0], (ast.Continue, ast.Break))]
-    ctx.check(len(rc) >= 1, "C18b-last-site-skipped", f,
-              "the last site has no following peptide and is skipped",
-              "no range check on the next-site index", node=il)
+              "(next_site - end == 1): the peptide's last residue stays in "
+              "place", f"end = {l_hi!r}", node=so.node)
     # value: [w[i + start] for i in perm]
     v = so.value
     ok_v = False
-    perm_expr = None
-    if isinstance(v, ast.ListComp) and len(v.generators) == 1 and \
-            not v.generators[0].ifs:
-        g = v.generators[0]
-        iv = g.target.id if isinstance(g.target, ast.Name) else None
-        e = v.elt
-        if iv and isinstance(e, ast.Subscript) and ast.unparse(
-                e.value) == w and ast.unparse(e.slice) in (
-                    f"{iv} + {ast.unparse(lo_n)}",
-                    f"{ast.unparse(lo_n)} + {iv}"):
-            ok_v = True
-            perm_expr = g.iter
+    PERM = None
+    if v[0] == "comp" and v[1] == "list" and len(v[3]) == 1 and \
+            not v[3][0][2]:
+        PERM = v[3][0][1]
+        e = v[2]
+        if e[0] == "sub" and root_name(e[1]) == W and e[1][0] == "var":
+            d = lin(e[2]) + l_lo.scale(-1)
+            ok_v = d.const == 0 and [(d.terms[k], c) for k, c in
+                                     d.atoms.items()] == [(("elem", PERM), 1)]
     ctx.check(ok_v, "C18a-rearrangement-of-itself", f,
               "the interior is replaced by its own residues read at "
               "start + perm[i]",
-              f"interior := {ast.unparse(v)[:100]}", node=so)
-    if perm_expr is None:
+              f"interior := {show(v, 160)}", node=so.node)
+    if not ok_v:
         return
-    # perm = perms[L] with L == end - start; all definitions permutations
-    ok_p = isinstance(perm_expr, ast.Subscript)
-    L_t = Tn.of(perm_expr.slice) if ok_p else None
-    l_L = lin(L_t, key) if L_t else None
-    diff = lin(hi_t, key) + lin(lo_t, key).scale(-1)
-    ctx.check(ok_p and l_L == diff, "C18a-permutation-length", f,
+    # perm = perms[L] with L == end - start
+    diff = l_hi + l_lo.scale(-1)
+    ok_p = PERM[0] == "sub" and PERM[1][0] == "var" and lin(PERM[2]) == diff
+    ctx.check(ok_p, "C18a-permutation-length", f,
               "the permutation used has length end - start",
-              f"permutation key {l_L!r} vs interior length {diff!r}",
-              node=so)
-    pname = ast.unparse(perm_expr.value) if ok_p else None
-    pst = [s for s in ast.walk(il) if isinstance(s, ast.Assign)
-           and isinstance(s.targets[0], ast.Subscript)
-           and ast.unparse(s.targets[0].value) == pname]
-    ctx.floor("C18a-permutation-definitions", len(pst), 2)
-    Lname = ast.unparse(perm_expr.slice)
-    for s in pst:
-        t = Terms(du).of(s.value)
-        rev_branch = any(ast.unparse(g[0]) == p_rev and g[1]
-                         for g in cfg.guards(s))
-        ok = True
-        why = ""
-        leaves = list(t[1]) if t[0] == "phi" else [t]
-        for lf in leaves:
-            c = np_call(lf)
-            if c and c[0] == "arange" and len(c[1]) == 1:
-                kind = "identity"
-            elif c and c[0] == "flip" and (np_call(c[1][0]) or ("",))[0] \
-                    == "arange":
-                kind = "reverse"
-            elif c and c[0] in ("random.permutation", "permutation") or (
-                    lf[0] == "mcall" and lf[2] == "permutation"):
-                kind = "random"
-            else:
-                ok = False
-                why = f"{show(lf, 80)} is not a permutation of range(L)"
-                continue
-            if rev_branch and kind != "reverse":
-                ok = False
-                why = f"reverse mode uses a {kind} permutation"
-            if not rev_branch and kind == "reverse":
-                ok = False
-                why = "shuffle mode uses the reversal"
-            # argument is arange(L)
-            inner = [x for x in walk_term(lf)
-                     if (np_call(x) or ("",))[0] == "arange"]
-            for a in inner:
-                ar = np_call(a)[1]
-                if len(ar) != 1 or lin(ar[0], key) != diff and \
-                        tkey(ar[0]) != Lname:
-                    pass
+              f"permutation is {show(PERM, 120)}; interior length "
+              f"{diff!r}", node=so.node)
+    if not ok_p:
+        return
+    PERMS = PERM[1][1]
+    L_t = PERM[2]
+    # short interiors untouched: the store runs iff L > 1
+    LEN_S = ("call", "builtins.len", (SITES,), ())
+    conds = [(simp(T.of(t)), o) for t, o in
+             cfg.necessary_conditions(so.stmt) if inside(t, il)]
+    bad = []
+    for L in (0, 1, 2, 3):
+
+        def atoms(t, L=L):
+            if lin(t) == diff:
+                return L
+            if t == LEN_S:
+                return 10
+            if t == ("idx", SITES):
+                return 3
+            raise KeyError(t)
+        reach = True
+        for t, o in conds:
+            try:
+                if bool(ev_term(t, atoms)) != o:
+                    reach = False
+            except (EvUnknown, KeyError):
+                raise AnalysisError(
+                    f"{f.qual}: the interior overwrite depends on "
+                    f"{show(t, 80)}; rule C18b needs re-reading")
+        if reach != (L > 1):
+            bad.append((L, reach))
+    ctx.check(not bad, "C18b-short-interiors-skipped", f,
+              "interiors of at most one residue are left unchanged, longer "
+              "ones are always rewritten",
+              f"(interior length, rewritten) deviates: {bad}", node=il)
+    # definitions of perms[L]
+    pst = [e for e in evs if root_name(e.recv) == PERMS and e.kind == "store"]
+    ctx.floor("C18a-permutation-definitions", len(pst), 1)
+    by_flag = {True: [], False: []}
+    for e in pst:
+        ctx.check(lin(e.key) == diff, "C18a-permutation-length", f,
+                  "permutations are filed under their own length",
+                  f"stored under {show(e.key, 80)}", node=e.node)
+        own = [(simp(T.of(t)), o) for t, o in
+               cfg.necessary_conditions(e.stmt) if inside(t, il)]
+        flags = [o for t, o in own if t == ("param", p_rev)]
+        # the value, per direction: directly, or through a helper's paths
+        cases = [([], e.value, du, T)]
+        if e.value[0] == "call" and e.value[1] in prog.funcs:
+            callee = prog.funcs[e.value[1]]
+            b = bound_args(prog, e.value) or {}
+            cases = []
+            for c in return_cases(prog, callee):
+                cases.append(([(subst_params(t, b), o) for t, o in c.conds],
+                              c.term, c.du, c.T, b))
+        for case in cases:
+            cconds, term, cdu, cT = case[:4]
+            b = case[4] if len(case) > 4 else {}
+            for flag in (True, False):
+                if flags and flags[0] != flag:
+                    continue
+                if any(t == ("param", p_rev) and o != flag
+                       for t, o in cconds):
+                    continue
+                for lf in var_leaves(cdu, cT, term):
+                    by_flag[flag].append((e, subst_params(lf, b), cdu, cT,
+                                          b))
+
+    def kind_of(lf, cdu, cT, b):
+        def is_range(x):
+            xs = [subst_params(y, b) for y in var_leaves(cdu, cT, x)] \
+                if x[0] in ("var", "phi") else [x]
+            return bool(xs) and all(
+                (np_call(y) or ("",))[0] == "arange"
+                and len(np_call(y)[1]) == 1
+                and lin(np_call(y)[1][0]) == diff for y in xs)
+        c = np_call(lf)
+        if c and c[0] == "arange" and is_range(lf):
+            return "identity"
+        if c and c[0] == "flip" and len(c[1]) == 1 and is_range(c[1][0]):
+            return "reverse"
+        if lf[0] == "sub" and lf[2] == ("slice", ("const", None),
+                                        ("const", None), ("const", -1)) \
+                and is_range(lf[1]):
+            return "reverse"
+        if lf[0] == "sub" and lf[2][0] == "slice" and _neg_one(lf[2][3]) \
+                and lf[2][1] == ("const", None) and lf[2][2] == (
+                    "const", None) and is_range(lf[1]):
+            return "reverse"
+        if c and c[0] in ("random.permutation", "permutation") and \
+                len(c[1]) >= 1 and is_range(c[1][-1]):
+            return "random"
+        return None
+
+    for flag in (True, False):
+        kinds = [(kind_of(lf, cdu, cT, b), lf, e)
+                 for e, lf, cdu, cT, b in by_flag[flag]]
+        unknown = [show(lf, 80) for k, lf, _e in kinds if k is None]
+        ks = {k for k, _lf, _e in kinds}
+        if flag:
+            ok = bool(kinds) and ks == {"reverse"}
+            why = (f"reverse mode uses {sorted(str(k) for k in ks)} "
+                   f"{unknown}")
+        else:
+            ok = bool(kinds) and not unknown and ks <= {
+                "identity", "random"} and "random" in ks
+            why = (f"shuffle mode uses {sorted(str(k) for k in ks)} "
+                   f"{unknown}")
         ctx.check(ok, "C18a-permutation-of-range", f,
-                  f"{pname}[L] := {ast.unparse(s.value)[:50]} is a "
-                  "permutation of range(L)" + (
-                      " (the exact reversal)" if rev_branch else ""),
-                  why, node=s)
-    # short interiors untouched
-    sk = [s for s in il.body if isinstance(s, ast.If)
-          and ast.unparse(s.test) in (f"{Lname} <= 1", f"{Lname} < 2")]
-    ctx.check(len(sk) == 1, "C18b-short-interiors-skipped", f,
-              "interiors of at most one residue are left unchanged",
-              "no 'if pep_len <= 1: continue'", node=il)
-    # result rows: [decoy name, joined working copy]
-    app = [n for n in ast.walk(ol) if isinstance(n, ast.Call)
-           and isinstance(n.func, ast.Attribute)
-           and n.func.attr == "append"
-           and not any(x is n for x in ast.walk(il))]
-    ok_a = len(app) == 1 and nm and ast.unparse(app[0].args[0]) in (
-        f"[{nm[0]}, ''.join({w})]", f"({nm[0]}, ''.join({w}))")
-    ctx.check(bool(ok_a), "C18a-decoy-record", f,
-              "each decoy is (prefixed name, the re-joined working copy)",
-              f"{[ast.unparse(a)[:80] for a in app]}", node=ol)
+                  f"{PERMS}[L] is a permutation of range(L)" + (
+                      " (the exact reversal)" if flag else
+                      " (random, or the identity when no other draw was "
+                      "found)") + f" with reverse={flag}",
+                  why, node=pst[0].node)
 
 
 def _make(ctx, f):
+    """Sink-driven: what is written to the output file, per value of
+    ``concatenate``."""
     prog = ctx.prog
     cfg = CFG(f.node)
-    ifs = [s for s in f.node.body if isinstance(s, ast.If)
-           and ast.unparse(s.test) == "concatenate"]
-    ctx.require(len(ifs) == 1, f"{f.qual}: concatenate switch not found")
-    s = ifs[0]
-    then = [ast.unparse(x) for x in s.body]
-    els = [ast.unparse(x) for x in s.orelse]
-    ok = then == ["proteins += decoys"] and els == ["proteins = decoys"]
-    ctx.check(ok, "C18c-concatenate", f,
-              "concatenated mode keeps the targets first and appends the "
-              "decoys; otherwise only decoys are written",
-              f"then: {then}; else: {els}", node=s)
-    sh = [n for n in ast.walk(f.node) if isinstance(n, ast.Call)
-          and ast.unparse(n.func) == "_shuffle_proteins"]
-    ok = len(sh) == 1 and [ast.unparse(a) for a in sh[0].args] == [
-        "proteins", "decoy_prefix", "enzyme", "reverse"]
-    ctx.check(ok, "C18c-options-routed", f,
-              "prefix, enzyme and reverse reach _shuffle_proteins",
-              f"{[ast.unparse(x) for x in sh]}", node=f.node)
-    # writer loop
-    loops = [n for n in f.node.body if isinstance(n, ast.For)]
-    ok_w = False
-    if loops:
-        lp = loops[-1]
-        body = [ast.unparse(x) for x in lp.body]
-        ok_w = (ast.unparse(lp.iter) == "proteins"
-                and any("'\\n'.join(wrap(seq))" in b for b in body)
-                and any("'>' + prot" in b for b in body)
-                and any("fasta.append('\\n'.join([prot, seq]))" in b
-                        for b in body))
+    NL = ("const", "\n")
+
+    def joined(t):
+        """X of  '\\n'.join(X)"""
+        if t[0] == "mcall" and t[1] == NL and t[2] == "join" and \
+                len(t[3]) == 1:
+            return t[3][0]
+        return None
+
+    seen = {}
+    for v in path_variants(f.node):
+        vT = Terms(DefUse(prog, f, fnode=v.fnode))
+        flag = None
+        for t, o in v.conds:
+            tt = vT.of(t)
+            while tt[0] == "un" and tt[1] == "not":
+                tt, o = tt[2], not o
+            if tt == ("param", "concatenate"):
+                flag = o
+        ws = [n for n in ast.walk(v.fnode) if isinstance(n, ast.Call)
+              and isinstance(n.func, ast.Attribute)
+              and n.func.attr == "write" and len(n.args) == 1]
+        if not ws:
+            continue
+        ctx.require(len(ws) == 1, f"{f.qual}: several writes")
+        for fl in ([flag] if flag is not None else [True, False]):
+            seen.setdefault(fl, []).append(vT.of(ws[0].args[0]))
+    ctx.require(set(seen) == {True, False}, f"{f.qual}: written text not "
+                "determined for both values of concatenate")
+    recs = {}
+    ok_w = True
+    why = ""
+    for fl, terms in seen.items():
+        for t in terms:
+            lst = joined(t)
+            parts = seq_parts(lst) if lst is not None else None
+            if not (parts and len(parts) == 1 and parts[0][0] == "each"):
+                ok_w = False
+                why = f"written text is {show(t, 160)}"
+                continue
+            _k, elt, R = parts[0]
+            want = ("mcall", NL, "join", (("list", (
+                ("bin", "+", ("const", ">"), ("item", ("elem", R), 0)),
+                ("mcall", NL, "join", (("call", "textwrap.wrap", (
+                    ("item", ("elem", R), 1),), ()),), ()))),), ())
+            if elt != want:
+                ok_w = False
+                why = f"a record is written as {show(elt, 200)}"
+            recs.setdefault(fl, set()).add(R)
     ctx.check(ok_w, "C18c-records-written", f,
               "every record is written as '>' + name, newline, wrapped "
-              "sequence, in list order",
-              "writer loop not recognised", node=f.node)
+              "sequence, in list order", why or "writer not recognised",
+              node=f.node)
+    ok = all(len(recs.get(fl, ())) == 1 for fl in (True, False))
+    why = f"records written: { {k: [show(x, 120) for x in v] for k, v in recs.items()} }"
+    DEC = None
+    if ok:
+        r_t, r_f = next(iter(recs[True])), next(iter(recs[False]))
+        DEC = r_f
+        ok = (r_f[0] == "call" and r_f[1] == FA + "_shuffle_proteins"
+              and r_t == ("bin", "+", r_f[2][0] if r_f[2] else None, r_f))
+    ctx.check(ok, "C18c-concatenate", f,
+              "concatenated mode keeps the targets first and appends the "
+              "decoys; otherwise only decoys are written", why,
+              node=f.node)
+    ok = False
+    if DEC is not None and DEC[0] == "call":
+        b = bound_args(prog, DEC) or {}
+        sp = prog.func(FA + "_shuffle_proteins").params
+        ok = [b.get(p) for p in sp[1:4]] == [
+            ("param", "decoy_prefix"), ("param", "enzyme"),
+            ("param", "reverse")] and b.get(sp[0], ("x",))[0] == "comp"
+    ctx.check(ok, "C18c-options-routed", f,
+              "prefix, enzyme and reverse reach _shuffle_proteins",
+              f"{show(DEC, 200) if DEC else None}", node=f.node)
     opens = [n for n in ast.walk(f.node) if isinstance(n, ast.Call)
              and ast.unparse(n.func) == "open"]
     ok_o = len(opens) == 1 and str(const_value(
